@@ -130,6 +130,16 @@ func propC11Sequential(t *rapid.T) {
 	s := mk()
 	derived := []zapcore.Core{s, s.With([]zapcore.Field{zap.Int("x", 1)})}
 	derived = append(derived, derived[1].With([]zapcore.Field{zap.Int("y", 2)}))
+	// the same sampler behind wrappers and inside a tee after a sibling that accepts everything: still ONE decision
+	// (and one hook call) per entry, against the same budget
+	sibling, _ := observer.New(zapcore.Level(-128))
+	nopHook := func(zapcore.Entry) error { return nil }
+	derived = append(derived,
+		zapcore.RegisterHooks(s, nopHook),
+		zapcore.NewTee(sibling, zapcore.RegisterHooks(s, nopHook)),
+		zapcore.NewTee(sibling, s),
+		zapcore.NewTee(sibling, zapcore.NewLazyWith(derived[1], []zapcore.Field{zap.Int("z", 3)})),
+	)
 	other := mk() // an independent sampler: own budget
 	models := []*c11Model{
 		{uint64(n), uint64(m), tick, th, map[c11Key]*c11Window{}},
